@@ -67,6 +67,10 @@ fn pick_enc(pc: &ProblemCase) -> Enc {
     encs[pc.enc_pick as usize % encs.len()]
 }
 
+/// What a garbled line is made of: plain text, bytes that are not UTF-8, a reply cut inside a multi-byte
+/// character, Latin-1 text.
+const GARBAGE_FLAVOURS: [&str; 4] = ["ascii", "binary", "cut_utf8", "latin1"];
+
 /// Runs the problem with the given factory-producing closure; generic over label type.
 fn run_pc(pc: &ProblemCase, enc: Enc, a: usize, mk: &dyn Fn() -> Box<crustabri::sat::SatSolverFactoryFn>) -> Result<Result<Answer, String>, String> {
     match build(&pc.gc) {
@@ -200,7 +204,7 @@ impl Faults {
         rec.class(&format!("proc-{}", fault));
         for j in 1..=k {
             rec.eval();
-            fake.configure(json!({"faults": {(j - 1).to_string(): fault}}));
+            fake.configure(json!({"faults": {(j - 1).to_string(): fault}, "garbage_flavour": GARBAGE_FLAVOURS[(j + pc.arg as usize) % GARBAGE_FLAVOURS.len()]}));
             let shared = Shared::new(500);
             let r = run_pc(pc, enc, a, &|| satwrap::factory_with(&shared, &backend));
             if k >= 2 && rec.nontrivial(&(serde_json::to_string(pc).unwrap(), "proc", j, fault)) {
@@ -297,7 +301,7 @@ impl Faults {
         rec.class(&format!("cli-{}", fault));
         for j in 1..=k {
             rec.eval();
-            fake.configure(json!({"faults": {(j - 1).to_string(): fault}}));
+            fake.configure(json!({"faults": {(j - 1).to_string(): fault}, "garbage_flavour": GARBAGE_FLAVOURS[(j + pc.arg as usize) % GARBAGE_FLAVOURS.len()]}));
             let out = repobin::run_cli(&bin, &args, Duration::from_secs(60));
             if out.timed_out {
                 eprintln!("CLI timed out: fault {} at {} of {} args {:?} log {:?}", fault, j, k, args, fake.read_log());
